@@ -7,6 +7,12 @@ position at which the transformation applies.
 Oracle on the REAL parser (independent of the model): the transformed document raises ValueError.
     accepted            -> ctx.fail("C15:<rule>:accepted", …)
     another exception   -> ctx.fail("C15:<rule>:raises-<Class>", …)
+HISTORIES (rule enforcement must not depend on what the parser did before): a sample of the transformed documents of every
+(document, rule) is also parsed in fresh forks of two helper interpreters — a pristine one (1st and 2nd parse of the document,
+then its valid base document, then the document again) and one warmed up with valid documents having families of every type —
+and must raise ValueError at every step; a different outcome between steps is reported as `C15:<rule>:history-dependent`.
+Eight base documents have families of types [t, other, t] for every type t, so every transformation is also applied to a
+family that follows a valid family of its own type and one of another type in the same document.
 T2: the model (`om parse`) gives the same outcome on every transformed document and on every base document.
 The instances the theorems of Props/C15.lean exclude (side conditions) are run too and their outcome is recorded in
 the evidence (`exemptions`), classified as documented exemption or hole.
@@ -682,34 +688,60 @@ for line in sys.stdin:
 
 
 class Forker:
+    """requests are pipelined: `ask` only writes the request and returns a ticket, a reader thread collects the replies
+    (the helper works on another core while the check goes on), `result(ticket)` waits for that reply"""
+
     def __init__(self, warmup=()):
         import json
         import subprocess
+        import threading
         self.warmup = list(warmup)
         self.p = subprocess.Popen([sys.executable, '-c', FORKER_SRC, lib.REPO], stdin=subprocess.PIPE, stdout=subprocess.PIPE,
                                   text=True, encoding='utf-8')
-        self.warm_outcomes = self._ask(self.warmup)
+        self.replies = []
+        self.asked = 0
+        self.dead = False
+        self.cond = threading.Condition()
+        self.reader = threading.Thread(target=self._read, daemon=True)
+        self.reader.start()
+        self.warm_outcomes = self.result(self.ask(self.warmup))
 
-    def _ask(self, docs):
+    def _read(self):
         import json
         try:
-            self.p.stdin.write(json.dumps(docs) + '\n')
-            self.p.stdin.flush()
-            line = self.p.stdout.readline()
-        except (BrokenPipeError, OSError):
-            line = ''
-        if not line:
-            raise lib.Infra('C15 history helper died (rc=%s)' % self.p.poll())
-        return json.loads(line)
+            for line in self.p.stdout:
+                with self.cond:
+                    self.replies.append(json.loads(line))
+                    self.cond.notify_all()
+        finally:
+            with self.cond:
+                self.dead = True
+                self.cond.notify_all()
 
-    def run(self, docs):
-        """outcomes ('accepted' | 'raises-<Class>' | 'timeout') of parsing docs in order in a fresh fork of the helper"""
-        return self._ask(list(docs))
+    def ask(self, docs):
+        """parse docs in order in a fresh fork of the helper; returns a ticket"""
+        import json
+        try:
+            self.p.stdin.write(json.dumps(list(docs)) + '\n')
+            self.p.stdin.flush()
+        except (BrokenPipeError, OSError, ValueError):
+            raise lib.Infra('C15 history helper died (rc=%s)' % self.p.poll())
+        self.asked += 1
+        return self.asked - 1
+
+    def result(self, ticket):
+        """outcomes ('accepted' | 'raises-<Class>' | 'timeout'), one per document of the request"""
+        with self.cond:
+            while len(self.replies) <= ticket and not self.dead:
+                self.cond.wait(1.0)
+            if len(self.replies) <= ticket:
+                raise lib.Infra('C15 history helper died (rc=%s)' % self.p.poll())
+            return self.replies[ticket]
 
     def close(self):
         try:
             self.p.stdin.close()
-            self.p.wait(timeout=10)
+            self.p.wait(timeout=30)
         except Exception:
             self.p.kill()
 
@@ -721,6 +753,7 @@ class Histories:
         self.warm_docs = [d.render() for d in omgen.gen_warmup_docs(rng, 2)]
         self.pristine = Forker()
         self.warm = Forker(self.warm_docs)
+        self.pending = []
         bad = [o for o in self.warm.warm_outcomes if o != 'accepted']
         if bad:
             raise lib.Infra('generator produced a rejected warm-up document: %s' % bad)
@@ -729,39 +762,49 @@ class Histories:
         self.pristine.close()
         self.warm.close()
 
-    def outcomes(self, text, base=None):
-        """[(history description, outcome of `text` at that point)] — two forks: one of the pristine helper, one of the warm one"""
-        out = []
-        a = self.pristine.run([text, text] + ([base, text] if base is not None else [text]))
-        out += [('1st parse in a fresh process', a[0]), ('2nd parse of the same document in that process', a[1])]
-        if base is not None:
+    def submit(self, text, base=None):
+        """two forks: one of the pristine helper, one of the warm one"""
+        return (self.pristine.ask([text, text] + ([base, text] if base is not None else [text])), self.warm.ask([text, text]), base is not None)
+
+    def resolve(self, tickets):
+        """[(history description, outcome of the document at that point)]"""
+        a, w, has_base = self.pristine.result(tickets[0]), self.warm.result(tickets[1]), tickets[2]
+        out = [('1st parse in a fresh process', a[0]), ('2nd parse of the same document in that process', a[1])]
+        if has_base:
             if a[2] != 'accepted':
                 out.append(('valid base document, parsed in that process after its rejected variant (must be accepted)', 'base:' + a[2]))
             out.append(('parse in that process after the valid document it was derived from', a[3]))
         else:
             out.append(('3rd parse of the same document in that process', a[2]))
-        w = self.warm.run([text, text])
         out += [('1st parse in a process warmed up with %d valid documents having families of every type' % len(self.warm_docs), w[0]),
                 ('2nd parse in that warmed-up process', w[1])]
         return out
 
+    def outcomes(self, text, base=None):
+        return self.resolve(self.submit(text, base))
+
 
 def check_history(ctx, b, hs, rule, what, text, base=None):
-    """the transformed document is rejected with ValueError at EVERY point of every history"""
-    obs = hs.outcomes(text, base)
-    ctx.count('history:' + rule)
-    ctx.count('history-steps', len(obs))
-    summary = '; '.join('%s: %s' % (h, o) for h, o in obs)
-    for h, o in obs:
-        if o != 'raises-ValueError':
-            case = {'rule': rule, 'what': what, 'text': text, 'legacy': 0, 'history': h, 'base': base, 'warmup': hs.warm_docs,
-                    'observed': obs}
-            differs = len({o2 for _, o2 in obs}) > 1
-            b.fail('C15:%s:%s' % (rule, o if not o.startswith('base:') else 'valid-document-rejected'),
-                   'rule %s: %s — %s on the %s%s [%s]: %r' % (rule, what, o, h, ' (HISTORY-DEPENDENT outcome)' if differs else '',
-                                                              summary, text[:300]), case)
-            return False
-    return True
+    """queue: the transformed document must be rejected with ValueError at EVERY point of every history (see settle_histories)"""
+    hs.pending.append((hs.submit(text, base), rule, what, text, base))
+
+
+def settle_histories(ctx, b, hs):
+    pending, hs.pending = hs.pending, []
+    for tickets, rule, what, text, base in pending:
+        obs = hs.resolve(tickets)
+        ctx.count('history:' + rule)
+        ctx.count('history-steps', len(obs))
+        summary = '; '.join('%s: %s' % (h, o) for h, o in obs)
+        for h, o in obs:
+            if o != 'raises-ValueError':
+                case = {'rule': rule, 'what': what, 'text': text, 'legacy': 0, 'history': h, 'base': base, 'warmup': hs.warm_docs,
+                        'observed': obs}
+                differs = len({o2 for _, o2 in obs}) > 1
+                b.fail('C15:%s:%s' % (rule, 'valid-document-rejected' if o.startswith('base:') else 'history-dependent' if differs else o),
+                       'rule %s: %s — %s on the %s%s [%s]: %r' % (rule, what, o, h, ' (HISTORY-DEPENDENT outcome)' if differs else '',
+                                                                  summary, text[:300]), case)
+                break
 
 
 def outcome(r):
@@ -808,10 +851,10 @@ def run(ctx):
     try:
         hs = Histories(rng)
         # transformed documents per (document, rule) that go through every history; quick tier: on the structured documents only
-        nhist = (1 if quick else 12) * wide
-        hist_docs = (24 if quick else 10 ** 9) * wide
+        nhist = (2 if quick else 12) * wide
+        hist_docs = ndocs
         preceded = omgen.gen_preceded_docs(rng)
-        for i in range(ndocs + len(preceded)):
+        for i in range(ndocs):
             if i < len(preceded):
                 # families [t, o, t]: every rule at every family position — first of its type, after another type, after its own type
                 d = preceded[i][1]
@@ -845,7 +888,9 @@ def run(ctx):
                 for what, text in cases:
                     check_doc(ctx, b, name, what, text, hs=hs)
             if len(b.reqs) > 2000:
+                settle_histories(ctx, b, hs)
                 b.flush()
+        settle_histories(ctx, b, hs)
         b.flush()
         # exemptions: what the parser does on the instances the theorems exclude
         ex = []
@@ -890,6 +935,7 @@ def replay(ctx, case):
             for h, o in hs.outcomes(text, c.get('base')):
                 print('  %-100s -> %s' % (h, o))
             check_history(ctx, b, hs, c.get('rule', 'replay'), c.get('what', ''), text, c.get('base'))
+            settle_histories(ctx, b, hs)
         check_doc(ctx, b, c.get('rule', 'replay'), c.get('what', ''), text, c.get('legacy', 0))
         b.flush()
     finally:
